@@ -56,9 +56,11 @@ def scenario(name, dims, weights=(1, 2), max_resp=2, yvals=(), weighted=True,
 
 def dim_record(d):
     return ("[kind |-> %s, var |-> %s, n |-> %d, miss |-> %s, ids |-> %s, vals |-> %s, "
-            "date |-> %s]" % (tla_value(d["kind"]), tla_value(d["var"]), d["n"],
-                              tla_value(set(d["miss"])), tla_value(d["ids"]),
-                              tla_value(d["vals"]), tla_value(bool(d["date"]))))
+            "date |-> %s, lrank |-> %s]" % (
+                tla_value(d["kind"]), tla_value(d["var"]), d["n"],
+                tla_value(set(d["miss"])), tla_value(d["ids"]),
+                tla_value(d["vals"]), tla_value(bool(d["date"])),
+                tla_value(d.get("lrank") or list(range(1, d["n"] + 1)))))
 
 
 def filter_record(f):
